@@ -217,8 +217,8 @@ def main():
     res = ck.step_generate('Gen_C01', TARGETS)
     if res is not None:
         ck.step_prove('P_C01')
-    n = 1680 if ck.thorough() else 84
-    goals = run_cases(ck, res, n, 60 if ck.thorough() else 10)
+    n = 8400 if ck.thorough() else 84
+    goals = run_cases(ck, res, n, 150 if ck.thorough() else 10)
     if res is not None:
         ck.step_interval_goals('corr', goals)
     if ck.broken and not ck.failures:
